@@ -121,6 +121,15 @@ func (fr *Frame) execCall(st *State, cc *ssa.CallCommon, instr ssa.Instruction, 
 func (fr *Frame) callFunction(st *State, fn *ssa.Function, args []Val, binds []Val, sig *types.Signature, pos token.Pos) []Val {
 	key := FuncKey(fn)
 	fc := fr.en.CS.Funcs[key]
+	// recursion: the function under verification calls itself (directly or through inlined
+	// code); no variant for recursion is supported, so termination cannot be shown
+	root := fr
+	for root.parent != nil {
+		root = root.parent
+	}
+	if fn == root.fn && fn != nil {
+		fr.oblige(st, "termination", "recursive-call-without-variant", False, nil, pos)
+	}
 	if fc != nil && !fc.Inline {
 		fc.Used = true
 		return fr.applyContract(st, fc, sig, args, pos, shortKey(key))
